@@ -28,7 +28,8 @@ UNSEEN = {"f": "zz", "g": "zz", "h": "zz", "u": "zz", "k": 99, "v": 77, "c1": "o
 @st.composite
 def case_strategy(draw):
     spec = draw(rich.frame_strategy(min_rows=8, max_rows=30, with_index=False, extra_unused=False))
-    d = draw(rich.design(num_pool=("x", "z", "scale(x)", "center(z)", "np.log(p)", "poly(x, 2)", "I(x + z)"), max_groups=2))
+    d = draw(rich.design(num_pool=("x", "z", "scale(x)", "center(z)", "np.log(p)", "poly(x, 2)", "I(x + z)"), max_groups=2,
+                         grp_pool=tuple(g for g in rich.GRP if "S(" not in g and "Sum" not in g)))  # the statement's blocks are indicator blocks
     used = sorted(rich.used_columns(d) & set(UNSEEN))
     n = frames.nrows(spec)
     # a factor with one single level in training: next to an intercept its term has no column at all, but a new level
